@@ -110,8 +110,11 @@ func (defaultSharedInitializeCaller) Call(s *slip.Scope, args slip.List, depth i
 	}
 	for k, sd := range obj.Type.initFormMap() {
 		if _, has := nameMap[k]; !has {
-			// If in the initForms then initform will not be nil.
-			obj.setSlot(s, sd, sd.initform.Eval(s, depth+1), depth)
+			if sd.initform == nil { // (:initform nil)
+				obj.setSlot(s, sd, nil, depth)
+			} else {
+				obj.setSlot(s, sd, sd.initform.Eval(s, depth+1), depth)
+			}
 		}
 	}
 	return obj
